@@ -6,7 +6,7 @@ import (
 
 // Document generator: a token grammar (mostly well-formed) plus a malformed stream.
 
-var plainNames = []string{"div", "p", "span", "a", "ul", "li", "DIV", "b", "x-y", "h1", "Table", "t:block", "o:p", "linK"}
+var plainNames = []string{"div", "p", "span", "a", "ul", "li", "DIV", "b", "x-y", "h1", "Table", "t:block", "o:p", "linK", "block", "BLOCK", "blocks", "Block"}
 var rawNames = []string{"script", "style", "textarea", "title", "SCRIPT", "Style", "TextArea", "TITLE"}
 var voidNames = []string{"br", "img", "input", "meta", "BR", "hr", "!DOCTYPE", "!doctype", "link"}
 var attrNames = []string{"id", "class", "href", "data-x", "Title", "a", "b", "x:y", "disabled", "é", "a.b", "on_click", "a/b", "/x", "v-if", "@c", "#r",
@@ -152,8 +152,12 @@ func (g *docGen) attrs() string {
 	if g.r.Chance(25) {
 		sb.WriteString(g.ws(1))
 	}
-	if g.r.Chance(3) {
-		sb.WriteString(" x=") // value-less '=' before '>'
+	if g.r.Chance(4) { // value-less '=' before '>', also on a directive attribute (the empty directive value must be rejected)
+		n := "x"
+		if g.o.Directives && g.r.Bool() {
+			n = g.o.Prefix + g.r.Pick([]string{"text", "if", "href", "with", "range", "remove", "else", "raw", "insert"})
+		}
+		sb.WriteString(" " + n + "=" + g.ws(0))
 	}
 	return sb.String()
 }
